@@ -208,7 +208,7 @@ def build_alphabet(lab, ents, root_of):
     for i, s in enumerate(searches[:4]):
         add("match:%d" % i, {"f": "match", "sid": f1, "search": s})
         add("match2:%d" % i, {"f": "match", "sid": f2, "search": s})
-    finders = ["list"] + ["paths:" + c for c in lab.configs] + ["all"]
+    finders = ["list"] + ["paths:" + c for c in lab.configs] + ["all"] + ["all:" + c for c in lab.configs if c != dflt][:1]
     for fd in finders:
         fs = fd != "list"
         for i, s in enumerate([searches[0], searches[2], searches[5], f1, searches[6]]):
@@ -313,7 +313,12 @@ def worker(args):
     rec = Rec("C13")
     lab = Lab(4242)                      # deterministic universe: identical in every worker / hash seed
     ents = universe.gen_universe(random.Random(4242), lab.model, lab.vocab, n_leaves=60, names=["ophelia", "yorick"])
-    lab.new_universe(ents=ents, names=["ophelia", "yorick"])
+    # the trees of the path configurations do not hold the same entities: some more exist in the default configuration only
+    # (so that "which tree answered" is visible in the result of every Finder that is asked with or without a configuration)
+    corner = sorted(e for e in ents if len(e.split("/")) >= 7)
+    only_default = sorted({"/".join(e.split("/")[:5] + ["v777"] + e.split("/")[6:]) for e in corner[:40]} - set(ents))
+    only_default = [e for e in only_default if lab.model.natural(e) is not None][:12]
+    lab.new_universe(ents=ents, names=["ophelia", "yorick"], only_default=only_default)
     root = lab.trees.pms[lab.default_config].root
     testing = os.path.dirname(os.path.dirname(root.rstrip("/")))     # .../SPIL_PROJECTS
     saved = testing + "__c13base"
